@@ -480,17 +480,30 @@ func smbDecoy(name string) {
 // of to its own buffer then writes over its neighbours.
 func shareBacking(c command_interface.CommandInterface) {
 	sv := cmdStruct(c)
-	byType := map[reflect.Type][]int{}
-	for i := 0; i < sv.NumField(); i++ {
-		f := sv.Field(i)
-		if f.Kind() == reflect.Slice && f.Type().Elem().Kind() == reflect.Uint8 && f.CanSet() {
-			byType[f.Type()] = append(byType[f.Type()], i)
+	// byte-string fields of the structure itself and of the string / buffer structures nested in it (SMB_STRING.Buffer,
+	// OEM_STRING.Buffer, ...), in declaration order
+	var fields []reflect.Value
+	var walk func(v reflect.Value, depth int)
+	walk = func(v reflect.Value, depth int) {
+		for i := 0; i < v.NumField(); i++ {
+			f := v.Field(i)
+			switch {
+			case f.Kind() == reflect.Slice && f.Type().Elem().Kind() == reflect.Uint8 && f.CanSet():
+				fields = append(fields, f)
+			case f.Kind() == reflect.Struct && depth < 3 && v.Type().Field(i).Name != "Command":
+				walk(f, depth+1)
+			}
 		}
+	}
+	walk(sv, 0)
+	byType := map[reflect.Type][]int{}
+	for i, f := range fields {
+		byType[f.Type()] = append(byType[f.Type()], i)
 	}
 	for t, idx := range byType {
 		total := 0
 		for _, i := range idx {
-			total += sv.Field(i).Len()
+			total += fields[i].Len()
 		}
 		big := reflect.MakeSlice(t, total+16, total+16)
 		for k := total; k < total+16; k++ {
@@ -504,7 +517,7 @@ func shareBacking(c command_interface.CommandInterface) {
 		}
 		off := 0
 		for _, i := range order {
-			f := sv.Field(i)
+			f := fields[i]
 			n := f.Len()
 			reflect.Copy(big.Slice(off, off+n), f)
 			f.Set(big.Slice3(off, off+n, total+16))
